@@ -758,6 +758,11 @@ theorem encF_attrs (f : Field) (v : Val) : ∀ kv ∈ (encF f v).1, f.writes kv.
     · simp at h
     · simp at h; subst h; simp [Field.writes]
   | attrReadOnly name ty => simp [encF] at h
+  | attrRW r w ty omitD =>
+    simp only [encF] at h
+    split at h
+    · simp at h
+    · simp at h; subst h; simp [Field.writes]
   | text ty => simp [encF] at h
   | enumChild ns decl anyNs names m =>
     simp only [encF] at h
@@ -810,10 +815,12 @@ theorem wfF_reads_xmlns {pns : Str} {f : Field} (h : wfF pns f = true) : f.reads
     simp only [wfF, Bool.and_eq_true, bne_iff_ne, ne_eq] at h
     simp [Field.reads, h.1]
   | attrReadOnly name ty => simp [wfF] at h
+  | attrRW r w ty o => simp [wfF] at h
   | _ => rfl
 
-theorem writes_reads {f : Field} {k : Str} (h : f.writes k = true) : f.reads k = true := by
-  cases f <;> simp_all [Field.writes, Field.reads]
+theorem writes_reads {pns : Str} {f : Field} {k : Str} (hw : wfF pns f = true) (h : f.writes k = true) :
+    f.reads k = true := by
+  cases f <;> simp_all [Field.writes, Field.reads, wfF]
 
 theorem encFs_no_xmlns {pns : Str} {fs : List Field} (vs : List Val) (h : wfFs pns fs = true) :
     ∀ kv ∈ (encFs fs vs).1, ¬ kv.1 = xmlnsKey := by
@@ -821,7 +828,7 @@ theorem encFs_no_xmlns {pns : Str} {fs : List Field} (vs : List Val) (h : wfFs p
   obtain ⟨f, hf, hr⟩ := encFs_attrs fs vs kv hkv
   have := wfF_reads_xmlns (wfFs_mem h f hf)
   rw [e] at hr
-  have hr' := writes_reads hr
+  have hr' := writes_reads (wfFs_mem h f hf) hr
   simp [this] at hr'
 
 theorem mk_no_xmlns {h : Head} {fs : List Field} (he : h.extraOk fs = true) (vs : List Val)
@@ -855,6 +862,7 @@ theorem encF_kids (pns : Str) (f : Field) (v : Val) (hw : wfF pns f = true) (hc 
   cases f with
   | attr name ty omitD => simp [encF] at hk
   | attrReadOnly name ty => simp [encF] at hk
+  | attrRW r w ty o => simp [wfF] at hw
   | text ty =>
     left
     simp only [encF, textNode] at hk
@@ -939,20 +947,35 @@ theorem encF_kids (pns : Str) (f : Field) (v : Val) (hw : wfF pns f = true) (hc 
 
 /-! ### independence of fields -/
 
-theorem writes_attr {g : Field} {k : Str} (h : g.writes k = true) : ∃ ty o, g = .attr k ty o := by
+theorem writes_attr {g : Field} {k : Str} (h : g.writes k = true) :
+    (∃ ty o, g = .attr k ty o) ∨ (∃ r ty o, g = .attrRW r k ty o) := by
   cases g <;> simp_all [Field.writes]
 
 theorem indep_writes_reads (f g : Field) (hi : indep f g = true) (k : Str) (hw : g.writes k = true) :
     f.reads k = false := by
-  obtain ⟨ty', o', rfl⟩ := writes_attr hw
-  cases f with
-  | attr n ty o =>
-    simp only [indep, bne_iff_ne, ne_eq] at hi
-    simp [Field.reads, hi]
-  | attrReadOnly n ty =>
-    simp only [indep, bne_iff_ne, ne_eq] at hi
-    simp [Field.reads, hi]
-  | _ => rfl
+  rcases writes_attr hw with ⟨ty', o', rfl⟩ | ⟨r', ty', o', rfl⟩
+  · cases f with
+    | attr n ty o =>
+      simp only [indep, bne_iff_ne, ne_eq] at hi
+      simp [Field.reads, hi]
+    | attrReadOnly n ty =>
+      simp only [indep, bne_iff_ne, ne_eq] at hi
+      simp [Field.reads, hi]
+    | attrRW r w ty o =>
+      simp only [indep, bne_iff_ne, ne_eq] at hi
+      simp [Field.reads, hi]
+    | _ => rfl
+  · cases f with
+    | attr n ty o =>
+      simp only [indep, bne_iff_ne, ne_eq] at hi
+      simp [Field.reads, hi]
+    | attrReadOnly n ty =>
+      simp only [indep, bne_iff_ne, ne_eq] at hi
+      simp [Field.reads, hi]
+    | attrRW r w ty o =>
+      simp only [indep, bne_iff_ne, ne_eq] at hi
+      simp [Field.reads, hi]
+    | _ => rfl
 
 theorem indep_reads (f g : Field) (v : Val) (hi : indep f g = true) :
     ∀ kv ∈ (encF g v).1, f.reads kv.1 = false :=
@@ -975,6 +998,7 @@ theorem indep_sees (pns : Str) (f g : Field) (v : Val) (hi : indep f g = true)
   cases f with
   | attr n ty o => rfl
   | attrReadOnly n ty => rfl
+  | attrRW r w ty o => rfl
   | text ty =>
     cases g <;> simp_all [indep, Field.emitsKids, encF]
   | enumChild ns decl anyNs names m =>
@@ -1084,6 +1108,9 @@ theorem encF_null_quiet : ∀ (f : Field) (pns : Str), quietF f = true →
     simp only [quietF, Bool.and_eq_true] at h
     simp [decF, encF, nullNode, Node.attrs, attr_nil, h.1, h.2]
   | .attrReadOnly .., _, _ => by simp [encF]
+  | .attrRW r w ty o, pns, h => by
+    simp only [quietF, Bool.and_eq_true] at h
+    simp [decF, encF, nullNode, Node.attrs, attr_nil, h.1, h.2]
   | .text ty, pns, h => by
     simp only [quietF, List.isEmpty_iff] at h
     simp [decF, encF, nullNode, deepText, deepTextList, h, textNode]
@@ -1151,6 +1178,7 @@ theorem decF_encF : ∀ (f : Field) (pns t : Str) (P R : List (Str × Str)) (Q S
     · rw [List.singleton_append, attr_cons_self]
       exact FTy.parse_show ty v hw.2 hc
   | .attrReadOnly name ty, pns, t, P, R, Q, S, v, hw, hc, _, _, _, _ => by simp [wfF] at hw
+  | .attrRW r w ty o, pns, t, P, R, Q, S, v, hw, hc, _, _, _, _ => by simp [wfF] at hw
   | .text ty, pns, t, P, R, Q, S, v, hw, hc, _, _, hQ, hS => by
     simp only [wfF] at hw
     simp only [canonF] at hc
@@ -1372,6 +1400,7 @@ mutual
 theorem canonF_decF : ∀ (f : Field) (pw pns : Str) (x : Node), wfF pw f = true → canonF f (decF pns x f) = true
   | .attr name ty o, _, pns, x, _ => by simp only [decF, canonF, FTy.canon_parse]
   | .attrReadOnly name ty, _, pns, x, _ => by simp only [decF, canonF, FTy.canon_parse]
+  | .attrRW r w ty o, _, pns, x, _ => by simp only [decF, canonF, FTy.canon_parse]
   | .text ty, _, pns, x, _ => by simp only [decF, canonF, FTy.canon_parse]
   | .enumChild ns decl anyNs names m, _, pns, x, _ => by
     simp only [decF]
@@ -1440,6 +1469,7 @@ mutual
 theorem mandF_of_noMand : ∀ (f : Field) (v : Val), noMandF f = true → mandF f v = true
   | .attr .., _, _ => by simp [mandF]
   | .attrReadOnly .., _, _ => by simp [mandF]
+  | .attrRW .., _, _ => by simp [mandF]
   | .text _, _, _ => by simp [mandF]
   | .tagChild .., _, _ => by simp [mandF]
   | .strSet .., _, _ => by simp [mandF]
